@@ -183,6 +183,8 @@ def classify_entry(kind, v, date_typed):
         if date_typed and isinstance(value, str) and \
                 parse_instant(value) is UNSPEC:
             return 'date-syntax-undocumented'
+        if date_typed and not isinstance(value, str):
+            return 'number-as-bound-of-date-field'
         return 'doc'
     if kind in ('min_length', 'max_length', 'max_nulls'):
         if isinstance(value, bool) or not isinstance(value, int) or value < 0:
